@@ -66,8 +66,13 @@ def _name(rng: random.Random, uniq: Optional[str] = None) -> str:
 FOREIGN_WORDS = [("caf\u00e9", "plain"), ("na\u00efve", "plain"), ("Zo\u00eb's", "plain"), ("r\u00e9sum\u00e9,", "plain"), ("\u00e9clair", "plain"), ("sm\u00f6rg\u00e5sbord", "plain"), ("\u20ac5", "plain"), ("(\u00fcber)", "plain"), ("\u2014", "symbol"), ("\u65e5\u672c\u8a9e", "symbol"), ("\u2026", "symbol"), ("\u0441\u043c\u044b\u0441\u043b", "symbol")]
 
 
-def w_foreign(rng: random.Random, symbols: bool = True) -> W:
-    t, form = rng.choice(FOREIGN_WORDS if symbols else [f for f in FOREIGN_WORDS if f[1] == "plain"])
+# characters that str.splitlines() / str.split() treat as line / word separators although the format does not
+EXOTIC_SEPARATOR_WORDS = [("page\x0cbreak", "plain"), ("line\u2028sep", "plain"), ("a\x0bb", "plain"), ("n\x85l", "plain"), ("u\x1cs", "plain"), ("para\u2029graph", "plain"), ("x\x1ey", "plain")]
+
+
+def w_foreign(rng: random.Random, symbols: bool = True, pool=None) -> W:
+    pool = pool or FOREIGN_WORDS
+    t, form = rng.choice(pool if symbols else [f for f in pool if f[1] == "plain"])
     return W(t, form=form)
 
 
@@ -470,6 +475,7 @@ class GenOpts:
     p_mod_equals_create: float = 0.0  # explicit YYMMDD equal to the ZID's own date
     allow_mod_without_zid: bool = True
     p_foreign: float = 0.04  # body words with non-ASCII characters (see FOREIGN_WORDS)
+    foreign_pool: Optional[list] = None  # default FOREIGN_WORDS
 
 
 class PageGen:
@@ -545,7 +551,7 @@ class PageGen:
                 w = self.filler(allow_collision and not (first_safe and i == 0))
                 if where == "item" and self.o.p_foreign and self.rng.random() < self.o.p_foreign:
                     # (never a token-less word in first position: an item made only of such words is, for the grammar, empty)
-                    w = w_foreign(self.rng, self.o.symbols and not (first_safe and i == 0))
+                    w = w_foreign(self.rng, self.o.symbols and not (first_safe and i == 0), self.o.foreign_pool)
             out.append(w)
         if first_safe and out:
             # the first body word must not *be* a prefix by the format's own definition
